@@ -43,6 +43,7 @@ type HarnessInfo struct {
 	POLoop   int
 	ReplayInterp bool
 	NoBlock  bool
+	BlockOK  bool
 }
 
 type Loaded struct {
@@ -210,6 +211,8 @@ func Load(groups []string) (*Loaded, error) {
 					h.Bounds = strings.TrimSpace(m[2])
 				case "po":
 					h.PO = true
+				case "blockok":
+					h.BlockOK = true
 				case "noblock":
 					h.NoBlock = true
 				case "replay":
